@@ -118,6 +118,17 @@ def r1(ctx):
     for fn, answer in (('edit::distance', 'last'), ('edit::prefix_distance', 'min')):
         b = ctx.body(fn)
         rv = ret_values(b)
+        if len(rv) == 2:
+            # `if normalized { x as f64 / len.max(1) as f64 } else { x as f64 }`: the same answer on both branches of the flag, the plain one
+            # being the quotient by 1.0
+            def flag_at(blk):
+                fl = [pol for tt, pol, g in atoms_at(b, blk) if core(tt)[0] == 'arg' and 'bool' in (b.local_ty(core(tt)[1]) or '')]
+                return fl[-1] if fl else None
+            quo = [(v_, blk) for v_, blk in rv if v_[0] == 'bin' and v_[1] == 'Div']
+            pla = [(v_, blk) for v_, blk in rv if not (v_[0] == 'bin' and v_[1] == 'Div')]
+            if len(quo) == 1 and len(pla) == 1 and flag_at(quo[0][1]) is True and flag_at(pla[0][1]) is False and \
+                    nosite(core(quo[0][0][2])) == nosite(core(pla[0][0])):
+                rv = [quo[0]]
         ctx.require(len(rv) == 1, b, 'single-result|' + fn.rsplit('::', 1)[-1], '%s has a single result expression' % fn,
                     '%s has %d result expressions: a shortcut bypasses the dynamic programme (e.g. byte lengths instead of character '
                     'counts)' % (fn, len(rv)))
